@@ -28,6 +28,10 @@ pub enum J {
     /// two different data arrays with the same cheap fingerprint `hash` (collide.rs), divided one right after
     /// the other on the same thread in the same cell
     Collide { v: usize, level: usize, hash: usize, seed: u64 },
+    /// one long run of calls on one thread, alternating between a few fixed arrays in small cells of different
+    /// generator degree, with random probes in between: counters that wrap (generations, epochs), caches that are
+    /// "validated" instead of cleared
+    LongHistory { seed: u64, steps: usize },
 }
 
 impl J {
@@ -38,6 +42,7 @@ impl J {
             J::Dense { v, level, kind, seed } => json!({"fam": "dense", "v": v, "level": level, "kind": kind, "seed": seed.to_string()}),
             J::Linear { v, level, seed } => json!({"fam": "linear", "v": v, "level": level, "seed": seed.to_string()}),
             J::Collide { v, level, hash, seed } => json!({"fam": "collide", "v": v, "level": level, "hash": hash, "seed": seed.to_string()}),
+            J::LongHistory { seed, steps } => json!({"fam": "long-history", "seed": seed.to_string(), "steps": steps}),
         }
     }
     fn from_json(j: &Value) -> Option<J> {
@@ -49,6 +54,7 @@ impl J {
             "dense" => J::Dense { v: g("v")?, level: g("level")?, kind: g("kind")?, seed: s("seed")? },
             "linear" => J::Linear { v: g("v")?, level: g("level")?, seed: s("seed")? },
             "collide" => J::Collide { v: g("v")?, level: g("level")?, hash: g("hash")?, seed: s("seed")? },
+            "long-history" => J::LongHistory { seed: s("seed")?, steps: g("steps")? },
             _ => return None,
         })
     }
@@ -169,6 +175,13 @@ pub fn jobs(ctx: &Ctx) -> Vec<J> {
                 jobs.push(J::Collide { v, level, hash: h, seed: mix(ctx.seed, k) });
             }
         }
+    }
+    // long single-thread histories (one per worker in the quick tier): more generator changes than a u8 counter holds
+    // in every one of them, more than a u16 counter holds in the longest
+    for i in 0..ctx.tier.pick(16usize, 64) {
+        k += 1;
+        let steps = if i == 0 { 70_000 } else if i % 4 == 1 { 20_000 } else { 3_000 };
+        jobs.push(J::LongHistory { seed: mix(ctx.seed, k ^ 0x10e6), steps });
     }
     jobs
 }
@@ -334,6 +347,53 @@ pub fn observe(ctx: &Ctx, st: &mut Stats, j: &J) {
             st.count("fingerprint_collision_pairs_checked", 1);
             st.reach("collision_hashes", hash as u64);
             st.distinct(mix(0xc011de, seed));
+        }
+        J::LongHistory { seed, steps } => {
+            // small cells with many different generator degrees: (version, level) -> 7, 10, 13, 17, 10, 16, 22, 28, 15, 26
+            const CELLS: [(usize, usize); 10] = [(1, 0), (1, 1), (1, 2), (1, 3), (2, 0), (2, 1), (2, 2), (2, 3), (3, 0), (3, 1)];
+            let mut rng = Rng::new(seed);
+            let nfixed = 2 + rng.below(2);
+            let fixed: Vec<(usize, usize, Vec<u8>)> = (0..nfixed)
+                .map(|i| {
+                    let (v, l) = CELLS[(rng.below(5) * 2 + i) % CELLS.len()];
+                    let n = tables::layout(v, l).data_codewords;
+                    // few distinct byte values: the fixed arrays exercise few table rows, the probes many
+                    let a = rng.byte();
+                    (v, l, (0..n).map(|j| if j % 3 == 0 { a } else { 0 }).collect())
+                })
+                .collect();
+            let mut last_degree = 0usize;
+            let mut changes = 0u64;
+            for step in 0..steps {
+                let probe = rng.chance(1, 10);
+                let (v, l, data): (usize, usize, Vec<u8>) = if probe {
+                    let (v, l) = CELLS[rng.below(CELLS.len())];
+                    let n = tables::layout(v, l).data_codewords;
+                    (v, l, (0..n).map(|_| rng.byte()).collect())
+                } else {
+                    fixed[step % nfixed].clone()
+                };
+                let lay = tables::layout(v, l);
+                if lay.ec_per_block != last_degree {
+                    changes += 1;
+                    last_degree = lay.ec_per_block;
+                }
+                st.eval();
+                let out = match call_structure(&data, v, l) {
+                    Ok(o) => o,
+                    Err(p) => {
+                        viol(st, ("structure-panic".into(), p), j, format!("step {step} of a long history"));
+                        return;
+                    }
+                };
+                if let Err(e) = check_output(&out, &data, &lay) {
+                    viol(st, e, j, format!("step {step} of {steps} calls on one thread ({changes} changes of generator degree so far; version {v} level {}, {})", tables::LEVEL_NAMES[l], if probe { "random probe" } else { "fixed array" }));
+                    return;
+                }
+            }
+            st.count("long_history_calls_checked", steps as u64);
+            st.max("max_generator_changes_in_one_history", changes);
+            st.distinct(mix(0x10e6, seed));
         }
         J::Linear { v, level, seed } => {
             st.eval();
